@@ -97,36 +97,37 @@ def Iter.runS : Nat → Iter → List Term × Iter
 
 def Iter.run (n : Nat) (it : Iter) : List Term := (Iter.runS n it).1
 
-/-- The items a FAILING `next` computes and throws away, in the order they are computed
-    (`map(f, a, b)`: the item of `a` when `b` has ended).  Only needed to predict which exception
-    surfaces when an element operation raises; `[]` when `next` succeeds. -/
-def Iter.lost : Iter → List Term
+/-- Every element computation one call of `next` performs, in the order python performs it — including
+    the ones whose result is thrown away (`map(f, a, b)`: the item of `a` when `b` has ended; `chain`: what
+    the exhausted first part computed).  Only needed to predict WHICH exception surfaces when an element
+    operation raises; irrelevant when element operations are total. -/
+def Iter.stepTrace : Iter → List Term
   | .list _ _ => []
   | .rep _ => []
   | .cycle _ _ => []
   | .chain a b =>
     match a.step with
-    | (some _, _) => []
-    | (none, _) => a.lost ++ (match b.step with | (some _, _) => [] | (none, _) => b.lost)
-  | .mapc _ _ _ a =>
+    | (some _, _) => a.stepTrace
+    | (none, _) => a.stepTrace ++ b.stepTrace
+  | .mapc f pre post a =>
     match a.step with
-    | (some _, _) => []
-    | (none, _) => a.lost
-  | .map2 _ a b =>
+    | (some x, _) => a.stepTrace ++ [.app f (pre ++ x :: post)]
+    | (none, _) => a.stepTrace
+  | .map2 f a b =>
     match a.step with
-    | (none, _) => a.lost
+    | (none, _) => a.stepTrace
     | (some x, _) =>
       match b.step with
-      | (none, _) => x :: b.lost
-      | (some _, _) => []
+      | (none, _) => a.stepTrace ++ b.stepTrace
+      | (some y, _) => a.stepTrace ++ b.stepTrace ++ [.app f [x, y]]
 
-/-- the lost items of the `next` that ended `take(n)` (none if `n` items were delivered) -/
-def Iter.runL : Nat → Iter → List Term
+/-- the computations of every `next` of `take(n)` (the last entry is the failing `next`, if any) -/
+def Iter.runT : Nat → Iter → List (List Term)
   | 0, _ => []
   | n + 1, it =>
-    match it.step with
-    | (none, _) => it.lost
-    | (some _, it') => Iter.runL n it'
+    it.stepTrace :: (match it.step with
+      | (none, _) => []
+      | (some _, it') => Iter.runT n it')
 
 /-- Items still unread in every `list` leaf, as (tag, count) (what a counting source observes). -/
 def Iter.unread : Iter → List (Nat × Nat)
